@@ -106,7 +106,7 @@ def _rec(loc: evid.Local, s: str, gen: t.Any = None) -> None:
         if k == "__skipped_deep_compare__":
             loc.add("deep_results_not_compared")
             continue
-        loc.violation(k, w, {"text": s} if len(s) < 400 else {"gen": gen})
+        loc.violation(k, w, {"text": s} if (len(s) < 400 or gen is None or "huge" in gen) else {"gen": gen})
 
 
 def _work(job: t.Tuple[t.Any, ...]) -> evid.Local:
@@ -146,6 +146,18 @@ def _work(job: t.Tuple[t.Any, ...]) -> evid.Local:
         for v in ["\\5c5c41", "\\5c41", "\\5c5c", "\\5C2a", "\\5c\\5c28", "\\5c5c5c5c", "\\5c2A\\5c"]:
             for tpl in ["(cn={v})", "(cn={v}*)", "(cn=*{v})", "(cn=a*{v}*b)", "(cn={v}*{v})", "(cn~={v})", "(cn:dn:1.2:={v})", "(&(cn={v}*)(o=*{v}*))"]:
                 _rec(loc, tpl.format(v=v))
+    elif fam == "huge":
+        # very long tokens in every position (digit runs beyond the interpreter's int<->str limit, block sizes of 4 KiB / 8 KiB / 64 KiB)
+        for n in (300, 4300, 4301, 5000, 70000):
+            arc = "9" * n
+            for tpl in ("1.{t}=x", "{t}.1=x", "1.2.{t};binary=x", "(cn:1.{t}:=x)", "(1.{t}:dn:=x)", "a{t}=x", "cn;x-{t}=x", "(cn:dn:r{t}:=x)", "0{t}.1=x"):
+                _rec(loc, tpl.format(t=arc), {"huge": tpl, "n": n})
+        for base in (4096, 8192, 65536):
+            for n in range(base - 12, base + 6):
+                for esc in ("\\e9", "\\2a", "\\5c"):
+                    _rec(loc, "(cn=" + "a" * n + esc + "b)", {"huge": "value", "n": n})
+                    _rec(loc, "(cn=" + "a" * n + esc + "*" + "c" * 7 + esc + ")", {"huge": "sub", "n": n})
+                _rec(loc, "(cn=" + "a" * n + "\u00e9" + ")", {"huge": "raw", "n": n})
     elif fam == "surrogates":
         for bad in ["\ud800", "\udc80", "\udcff", "\udfff"]:
             for tpl in ["{}=a", "a={}", "({}=a)", "(a={})", "(a:{}:=b)", "(&(a=b)({}=c))", "a=\\{}", "{}"]:
@@ -191,6 +203,7 @@ def run(ctx: evid.Ctx) -> None:
     jobs.append(("surrogates",))
     jobs.append(("unicode",))
     jobs.append(("escapes",))
+    jobs.append(("huge",))
     for loc in par.pmap(_work, jobs, ctx.seed):
         evid.absorb(ctx, loc)
     ctx.counters["evaluations"] = ctx.counters.get("states", 0)
